@@ -62,6 +62,42 @@ Proof.
 Qed.
 Print Assumptions gen_add_pushes.
 
+(* ... and it FILES the order under accept time + time to live: the index keeps "every order is filed under its accept time plus its
+   time to live" (what the expiry theorems of the seventeenth translator assume), keeps distinct keys, an order with a time to live is
+   filed, one without is not *)
+Theorem gen_add_files_under_accept_time_plus_ttl : forall b o b' o', filed_ok (b_tbl b) -> NoDup (map fst (b_tbl b)) ->
+  add_gen b o = Ok (b', o') ->
+  filed_ok (b_tbl b') /\ NoDup (map fst (b_tbl b')) /\
+  match ttl o' with
+  | Some d => exists l, In (placed o' + d, l) (b_tbl b') /\ In o' l
+  | None => b_tbl b' = b_tbl b
+  end.
+Proof.
+  intros b o b' o' F ND H. unfold add_gen in H.
+  destruct (negb (Bool.eqb (isbuy o) (b_side b))); [discriminate|].
+  set (o1 := with_placed o (b_time b)) in *. cbn [bq_set b_tbl b_q] in H.
+  destruct (ttl o1) as [d|] eqn:Et; cbn [bind] in H.
+  - set (k := placed o1 + d) in *.
+    set (t1 := if negb (xhas k (b_tbl b)) then xset k [] (b_tbl b) else b_tbl b).
+    assert (H1 : forall kk l, In (kk, l) t1 -> (kk = k /\ l = []) \/ In (kk, l) (b_tbl b)).
+    { unfold t1. intros kk l Hi. destruct (negb (xhas k (b_tbl b))); [|right; exact Hi].
+      destruct (xset_entries _ _ _ _ _ Hi) as [[-> ->]|[Hi' _]]; auto. }
+    assert (ND1 : NoDup (map fst t1)) by (unfold t1; destruct (negb (xhas k (b_tbl b))); [apply xset_keys|]; exact ND).
+    assert (Hh : xhas k t1 = true).
+    { unfold t1. destruct (xhas k (b_tbl b)) eqn:E; cbn [negb]; [exact E|]. apply xhas_in. exists []. apply xset_has. }
+    destruct (negb (xhas k (b_tbl b))) eqn:En; cbn [bind btbl_set bq_set b_tbl b_side b_time b_q] in H.
+    all: change (placed o1 + d) with k in H; unfold xappend in H; unfold t1 in Hh, H1, ND1; rewrite Hh in H;
+         cbn [bind btbl_set bq_set b_tbl] in H; inversion H; subst b' o'; clear H; cbn [b_tbl].
+    all: rewrite Et; split; [|split; [apply xset_keys; assumption|eexists; split; [apply xset_has|apply in_app_iff; right; left; reflexivity]]].
+    all: intros kk l x Hi Hx; destruct (xset_entries _ _ _ _ _ Hi) as [[-> ->]|[Hi' _]];
+         [apply in_app_iff in Hx; destruct Hx as [Hx|[<-|[]]];
+          [destruct (xget_entry _ _ _ Hx) as [l0 [Hl0 Hx0]]; destruct (H1 _ _ Hl0) as [[_ ->]|Hl1]; [destruct Hx0|exact (F _ _ _ Hl1 Hx0)]
+          |exists d; split; [exact Et|reflexivity]]
+         |destruct (H1 _ _ Hi') as [[_ ->]|Hl1]; [destruct Hx|exact (F _ _ _ Hl1 Hx)]].
+  - inversion H; subst b' o'; clear H. cbn [b_tbl]. rewrite Et. auto.
+Qed.
+Print Assumptions gen_add_files_under_accept_time_plus_ttl.
+
 (* OrderBook.cancel and OrderBook.change_order_volume: whenever they return, the queue is a heap again *)
 Theorem gen_cancel_keeps_the_heap : forall b o b' o', is_heap (b_q b) = true -> cancel_gen b o = Ok (b', o') ->
   is_heap (b_q b') = true /\ items (b_q b') = (if hmem o (b_q b) then remove_id (oid o) (items (b_q b)) else items (b_q b)).
